@@ -525,6 +525,24 @@ def _install_binops(cls):
         setattr(cls, f"__{dunder}__", fwd)
         if name not in ("lt", "le", "gt", "ge", "eq", "ne"):
             setattr(cls, f"__r{dunder}__", rev)
+    # the method spellings (df.add(other), ...): default axis / level / fill_value only
+    for meth, opname in (("add", "add"), ("sub", "sub"), ("mul", "mul"), ("div", "truediv"), ("truediv", "truediv"), ("floordiv", "floordiv"), ("mod", "mod"), ("pow", "pow"),
+                         ("lt", "lt"), ("le", "le"), ("gt", "gt"), ("ge", "ge"), ("eq", "eq"), ("ne", "ne")):
+        def method(self, other, axis="columns", level=None, fill_value=None, _op=opname):
+            if level is not None or fill_value is not None or axis not in ("columns", 1, None):
+                raise Unsupported("binary operator method options")
+            return self._bin(other, _op)
+
+        if not hasattr(cls, meth):
+            setattr(cls, meth, method)
+    for meth, opname in (("radd", "add"), ("rsub", "sub"), ("rmul", "mul"), ("rtruediv", "truediv"), ("rdiv", "truediv")):
+        def rmethod(self, other, axis="columns", level=None, fill_value=None, _op=opname):
+            if level is not None or fill_value is not None or axis not in ("columns", 1, None):
+                raise Unsupported("binary operator method options")
+            return self._bin(other, _op, reverse=True)
+
+        if not hasattr(cls, meth):
+            setattr(cls, meth, rmethod)
     cls.__hash__ = lambda self: id(self)
 
 
